@@ -27,6 +27,7 @@ type c14Case struct {
 	WithCert bool     // a (foreign) certificate beside the key
 	Steps    []string // regeneration reasons
 	CfgAlg   string   // keyAlgorithm written in the target's config at the start
+	BigExt   int      `json:",omitempty"` // size of a raw extension that makes the artifact large (0 = none)
 }
 
 func c14World(c c14Case) World {
@@ -45,6 +46,9 @@ func c14World(c c14Case) World {
 	w.Ents = []core.Entity{ca, mid, leaf}
 	t := w.Ent(c.Target)
 	t.KeyAlg = c.CfgAlg
+	if c.BigExt > 0 {
+		t.Extensions = append(t.Extensions, core.Extension{Kind: core.KCUSTOM, OID: "1.2.3.4.5", Raw: core.Bin(bytes.Repeat([]byte{0xab}, c.BigExt))})
+	}
 	var buf []byte
 	buf = append(buf, c.Lead...)
 	if c.WithCert && c.KeyDER != nil {
@@ -201,7 +205,7 @@ func TestC14(t *testing.T) {
 	}
 	algs := append([]string{"RSA-1024", "RSA-2048"}, ecKeyAlgs...)
 	if !r.Quick() {
-		algs = append(algs, "RSA-4096")
+		algs = append(algs, "RSA-4096", "RSA-8192")
 	}
 	gen := func(t *rapid.T) c14Case {
 		c := c14Case{Target: rapid.SampledFrom([]string{"ca", "mid", "leaf"}).Draw(t, "target")}
@@ -264,6 +268,9 @@ func TestC14(t *testing.T) {
 		}
 		c.Lead = rapid.SampledFrom([]string{"", "", "", "# my key, do not lose\n", "\n\n", "Bag Attributes\n    friendlyName: x\n"}).Draw(t, "lead")
 		c.Trail = rapid.SampledFrom([]string{"", "", "", "\n", "# end of file\n", "trailing text without newline", "\r\n\r\n"}).Draw(t, "trail")
+		if rapid.IntRange(0, 5).Draw(t, "bigext") == 0 {
+			c.BigExt = rapid.SampledFrom([]int{3000, 6200, 9000, 20000, 70000}).Draw(t, "bigextlen") // artifact files of 4-100 KiB
+		}
 		n := rapid.IntRange(1, 4).Draw(t, "nsteps")
 		for i := 0; i < n; i++ {
 			c.Steps = append(c.Steps, rapid.SampledFrom(c14Steps).Draw(t, fmt.Sprintf("step%d", i)))
